@@ -275,12 +275,12 @@ def new_value(rng, cur):
     return None
 
 
-def do_set(ses, t, only=None):
+def do_set(ses, t, only=None, custom=False):
     """one plain parameter assignment on the real object + the model request"""
     rng = ses.rng
     from armi.reactor.parameters import NoDefault
 
-    pds = [pd for pd in ses.pdefs(t) if pd.name not in ses.skipnames]
+    pds = [pd for pd in ses.pdefs(t) if pd.name not in ses.skipnames and (custom or default_setter(pd))]
     if not pds:
         return False
     kept = [pd for pd in pds if any(pd is q for ks in ses.keepstack for q in ks)]
@@ -321,6 +321,12 @@ def do_set(ses, t, only=None):
     ses.emit(f"set {ses.ids[id(t)]} {ses.did(pd)} {ses.code(ses.val(t, pd))}", "ok " + ses.obj_line(t) + f" d{pd.assigned}")
     ses.ctx.count(f"assign {type(cur).__name__}->{type(v).__name__}")
     return True
+
+
+def default_setter(pd):
+    """True for the plain setter (`setter=NoDefault`): it closes over the definition only; a custom setter
+    (which may transform, refuse or fan out) also closes over the user function"""
+    return getattr(pd._setter, "__code__", None) is not None and pd._setter.__code__.co_freevars == ("self",)
 
 
 class _Desync(Exception):
@@ -369,7 +375,7 @@ def scope(ses, allobjs, depth, root=None, keep=None, script=None):
     root = root if root is not None else rng.choice(allobjs)
     objs = [root] + list(root.iterChildren(deep=True))
     ids = "[" + ",".join(str(ses.ids[id(o)]) for o in objs) + "]"
-    pool = [pd for o in objs for pd in ses.pdefs(o) if pd.name not in ses.skipnames]
+    pool = [pd for o in objs for pd in ses.pdefs(o) if pd.name not in ses.skipnames and default_setter(pd)]
     if keep is None:
         keep = []
         if rng.random() < 0.6:
@@ -377,20 +383,33 @@ def scope(ses, allobjs, depth, root=None, keep=None, script=None):
     keepnames_by_obj = {id(o): {pd.name for pd in keep if any(pd is q for q in o.p.paramDefs)} for o in objs}
     entry = snapshot(ses, allobjs)
     ses.log.append(f"enter {ses.ids[id(root)]} keep={len(keep)} depth={depth}")
-    with root.retainState(keep):
-        ses.emit(f"enter {ids}", "ok " + ses.lines(objs))
-        for o in objs:
-            if any(isinstance(k, str) and k.startswith("k") for k in o.cached):
-                ctx.fail("cache-visible-inside-scope", "the cache starts empty inside a scope", ses.case(), observed=ses.ids[id(o)])
-        ses.keepstack.append(keep)
-        try:
-            if script is not None:
-                script()
-            else:
-                body(ses, allobjs, depth, rng.randint(1, 8))
-        finally:
-            ses.keepstack.pop()
-        inner = snapshot(ses, allobjs)
+    phase = ["enter"]
+    try:
+        with root.retainState(keep):
+            phase[0] = "body"
+            ses.emit(f"enter {ids}", "ok " + ses.lines(objs))
+            for o in objs:
+                if any(isinstance(k, str) and k.startswith("k") for k in o.cached):
+                    ctx.fail("cache-visible-inside-scope", "the cache starts empty inside a scope", ses.case(), observed=ses.ids[id(o)])
+            ses.keepstack.append(keep)
+            try:
+                if script is not None:
+                    script()
+                else:
+                    body(ses, allobjs, depth, rng.randint(1, 8))
+            finally:
+                ses.keepstack.pop()
+            inner = snapshot(ses, allobjs)
+            phase[0] = "exit"
+    except _Desync:
+        raise
+    except Exception as e:
+        if phase[0] == "body":
+            raise
+        ctx.fail(f"retain-scope-{phase[0]}-raises", "a retain-state scope can be opened and closed at any nesting depth",
+                 ses.case() | {"object": ses.ids[id(root)], "type": type(root).__name__, "depth": depth, "keep": len(keep)},
+                 observed=repr(e)[:200])
+        raise _Desync()
     ses.log.append(f"exit {ses.ids[id(root)]}")
     kid = "[" + ",".join(str(ses.did(pd)) for pd in keep) + "]"
     ses.emit(f"exit {ids} {kid}", "ok " + ses.lines(objs))
@@ -423,7 +442,7 @@ def directed_nested_keep(ses, allobjs):
     rng = ses.rng
     for _ in range(20):
         t = rng.choice(allobjs)
-        pds = [pd for pd in ses.pdefs(t) if pd.name not in ses.skipnames
+        pds = [pd for pd in ses.pdefs(t) if pd.name not in ses.skipnames and default_setter(pd)
                and isinstance(ses.val(t, pd), (int, float, str, type(None))) and ses.val(t, pd) is not NoDefault]
         if pds:
             break
@@ -632,7 +651,7 @@ def api_stream(ctx, seq_seed):
                 if getattr(o, "material", None) is not None:
                     o.material._setCache("k1", 4.0)
             else:
-                do_set(ses, rng.choice(objs))
+                do_set(ses, rng.choice(objs), custom=True)
         except _Desync:
             pass
         except Exception as e:  # an API refusing its input is not a retain-state matter
@@ -642,13 +661,26 @@ def api_stream(ctx, seq_seed):
         root = rng.choice(objs)
         sub = {id(o) for o in [root] + list(root.iterChildren(deep=True))}
         entry = snapshot(ses, objs)
-        with root.retainState():
-            for _ in range(rng.randint(1, 5)):
-                if depth < 4 and rng.random() < 0.3:
-                    nest(depth + 1)
-                else:
-                    mutate()
-            inner = snapshot(ses, objs)
+        phase = ["enter"]
+        try:
+            with root.retainState():
+                phase[0] = "body"
+                for _ in range(rng.randint(1, 5)):
+                    if depth < 4 and rng.random() < 0.3:
+                        nest(depth + 1)
+                    else:
+                        mutate()
+                inner = snapshot(ses, objs)
+                phase[0] = "exit"
+        except _Desync:
+            raise
+        except Exception as e:
+            if phase[0] == "body":
+                raise
+            ctx.fail(f"retain-scope-{phase[0]}-raises", "a retain-state scope can be opened and closed at any nesting depth",
+                     {"seq_seed": seq_seed, "stream": "api", "object": ses.ids[id(root)], "type": type(root).__name__, "depth": depth},
+                     observed=repr(e)[:200])
+            raise _Desync()
         after = snapshot(ses, objs)
         for o in objs:
             want = entry[id(o)] if id(o) in sub else inner[id(o)]
@@ -666,8 +698,11 @@ def api_stream(ctx, seq_seed):
         ctx.count(f"api scope depth {depth}")
 
     with common.quiet():
-        for _ in range(4):
-            nest(1)
+        try:
+            for _ in range(4):
+                nest(1)
+        except _Desync:
+            ctx.count("api session ended early")
     ctx.case(("api", seq_seed))
 
 
